@@ -248,3 +248,211 @@ BOUNDED = [{"name": "dump-parse-roundtrip", "script": "bounded/b01_roundtrip.py"
 from contracts.adapt_arms import dataclass_unit  # noqa: E402
 from contracts.class_type import class_type_unit  # noqa: E402
 UNITS += [dataclass_unit("C01"), class_type_unit("C01")]
+
+
+# ------------------------------------------------------------------------------------- _dump_cleanup_actions
+# what dump() writes for each declared action: nothing for hidden options and config-file options, nothing for None when nulls are
+# skipped, the subcommand *sections* (not the bookkeeping keys of other parsers' actions), and for typed values the serialised form
+# produced by the action itself with the caller's dump settings - so that the text re-parses to the same configuration.
+KIND = ["plain", "typed", "typed-hidden", "config-file", "config-load-hidden", "link-to-typed", "subcommands"]
+
+
+def dca_setup(ctx):
+    kind = KIND[ctx.choose(len(KIND), "action")]
+    state = ["value", "None", "absent"][ctx.choose(3, "cfg[dest]")]
+    skip_none = ctx.choose(2, "skip_none") == 1
+    skip_validation = ctx.choose(2, "skip_validation") == 1
+    ser_fails = ctx.choose(2, "serialize-raises-ValueError") == 1 if kind in ("typed", "link-to-typed") and state == "value" else False
+    prefix = ["", "fit."][ctx.choose(2, "prefix")]
+    for n, b in (("_ActionConfigLoad", "Action"), ("ActionConfigFile", "Action"), ("_ActionSubCommands", "Action"), ("ActionLink", "Action"), ("ActionTypeHint", "Action")):
+        ctx.classes.add(n, [b])
+    SUPPRESS = "==SUPPRESS=="
+    value, other_val, serialised = Rec("stored value"), Rec("value of another key"), Rec("serialised form")
+    key = prefix + "k"
+    store = {prefix + "other": other_val}
+    if state != "absent":
+        store[key] = value if state == "value" else None
+    open_cms = []
+    dump_kwargs = {"skip_none": skip_none, "skip_validation": skip_validation, "skip_link_targets": z3.Bool("skip_link_targets")}
+
+    def serialize(c, s_, a, k):
+        c.event("serialize", s_, a[0], k.get("dump_kwargs"), list(open_cms))
+        if ser_fails:
+            raise PyRaise(ExcVal("ValueError", origin="serialize"))
+        return serialised
+
+    typed = Rec("ActionTypeHint", attrs={"dest": "k", "help": "h"}, methods={"serialize": serialize})
+    subparser = Rec("ArgumentParser(sub)", attrs={"_actions": [Rec("Action", attrs={"dest": "inner", "help": "h"})]})
+    action = {
+        "plain": Rec("Action", attrs={"dest": "k", "help": "h"}),
+        "typed": typed,
+        "typed-hidden": Rec("ActionTypeHint", attrs={"dest": "k", "help": SUPPRESS}, methods={"serialize": serialize}),
+        "config-file": Rec("ActionConfigFile", attrs={"dest": "k", "help": "h"}),
+        "config-load-hidden": Rec("_ActionConfigLoad", attrs={"dest": "k", "help": SUPPRESS}),
+        "link-to-typed": Rec("ActionLink", attrs={"dest": "k", "help": "h", "target": ("k", typed)}),
+        "subcommands": Rec("_ActionSubCommands", attrs={"dest": "k", "help": "h", "choices": {"a": subparser}}),
+    }[kind]
+
+    def update(c, s_, a, k):
+        c.event("update", a[1], a[0])
+        store[a[1]] = a[0]
+
+    cfg = Rec("Namespace", methods={"pop": lambda c, s_, a, k: store.pop(a[0], a[1] if len(a) > 1 else None), "get": lambda c, s_, a, k: store.get(a[0]), "update": update,
+                                    "__contains__": lambda c, s_, a, k: a[0] in store, "__getitem__": lambda c, s_, a, k: store[a[0]]})
+
+    def recurse(c, s_, a, k):
+        c.event("recurse", a[0], a[1], a[2], k.get("prefix"))
+
+    self = Rec("ArgumentParser", methods={"_dump_cleanup_actions": recurse})
+    consts = {"argparse": Rec("argparse", attrs={"SUPPRESS": SUPPRESS}), "_ActionConfigLoad": ClassRef("_ActionConfigLoad"), "ActionConfigFile": ClassRef("ActionConfigFile"),
+              "_ActionSubCommands": ClassRef("_ActionSubCommands"), "ActionLink": ClassRef("ActionLink"), "ActionTypeHint": ClassRef("ActionTypeHint")}
+    from contracts.adapt_arms import suppress_cm
+    cms = {"parser_context": (lambda c, a, k: open_cms.append(("parser_context", k.get("parent_parser"))), lambda c, t, e: (open_cms.pop(), False)[1]), "suppress": suppress_cm()}
+    return Setup(env={"self": self, "cfg": cfg, "actions": [action], "dump_kwargs": dump_kwargs, "prefix": prefix}, calls={"filter_default_actions": lambda c, a, k: list(a[0])}, consts=consts, cms=cms,
+                 data=dict(kind=kind, state=state, skip_none=skip_none, skip_validation=skip_validation, ser_fails=ser_fails, prefix=prefix, key=key, store=store, value=value, other_val=other_val,
+                           serialised=serialised, typed=typed, dump_kwargs=dump_kwargs, self_=self, cfg=cfg, subparser=subparser, open_cms=open_cms))
+
+
+def dca_post(ctx, st, result):
+    d = st.data
+    tag = f"[{d['kind']},{d['state']}{',skip_none' if d['skip_none'] else ''}{',skip_validation' if d['skip_validation'] else ''}{',serialize fails' if d['ser_fails'] else ''},prefix={d['prefix']!r}]"
+    store, key = d["store"], d["key"]
+    ctx.oblige("frame", "keys-of-other-actions-are-untouched" + tag, store.get(d["prefix"] + "other") is d["other_val"] and set(store) <= {key, d["prefix"] + "other"})
+    removed = d["kind"] in ("typed-hidden", "config-file", "subcommands") or (d["skip_none"] and d["state"] == "None")
+    ser = [e for e in ctx.events if e[0] == "serialize"]
+    if removed or d["state"] == "absent":
+        ctx.oblige("post", "hidden-options,config-file-options,the-subcommand-name-key(and None when nulls are skipped)-are-not-written" + tag, key not in store and not ser)
+    elif d["kind"] in ("typed", "link-to-typed") and d["state"] == "value":
+        ok_call = len(ser) == 1 and ser[0][1] is d["typed"] and ser[0][2] is d["value"] and ser[0][3] is d["dump_kwargs"] and ("parser_context", d["self_"]) in ser[0][4]
+        ctx.oblige("post", "a-typed-value-is-serialised-by-its-own-action(for a link: the target's),once,with-the-caller's-dump-settings,inside-this-parser's-context" + tag, ok_call)
+        if d["ser_fails"]:
+            ctx.oblige("post", "a-value-that-cannot-be-serialised-is-kept-as-it-is-only-when-validation-is-skipped" + tag, d["skip_validation"] and store.get(key) is d["value"])
+        else:
+            ctx.oblige("post", "the-serialised-form-replaces-the-value-under-the-same-key" + tag, store.get(key) is d["serialised"])
+    else:
+        ctx.oblige("post", "otherwise-the-value-is-written-as-it-is" + tag, key in store and store[key] is (d["value"] if d["state"] == "value" else None) and not ser)
+    rec = [e for e in ctx.events if e[0] == "recurse"]
+    if d["kind"] == "subcommands" and d["skip_none"] and d["state"] == "None":
+        pass  # no subcommand selected (its name is None and nulls are skipped): there are no sections to clean, nothing is required here
+    elif d["kind"] == "subcommands":
+        ctx.oblige("post", "every-subcommand's-actions-are-cleaned-below-its-name,with-the-same-dump-settings" + tag,
+                   len(rec) == 1 and rec[0][1] is d["cfg"] and rec[0][2] is d["subparser"].attrs["_actions"] and rec[0][3] is d["dump_kwargs"] and rec[0][4] == d["prefix"] + "a.")
+    else:
+        ctx.oblige("post", "no-recursion-without-subcommands" + tag, not rec)
+    ctx.oblige("post", "no-context-left-open" + tag, not d["open_cms"])
+
+
+def dca_raises(ctx, st, exc):
+    d = st.data
+    ctx.oblige("raises", f"only-a-failing-serialisation-with-validation-on-propagates(got {exc.cls}@{exc.origin})", exc.cls == "ValueError" and d["ser_fails"] and not d["skip_validation"] and not d["open_cms"])
+
+
+UNITS.append(Unit("C01", "jsonargparse._core:ArgumentParser._dump_cleanup_actions", dca_setup, dca_post, dca_raises, max_paths=20000, expect_cover=("return", "raise:ValueError"),
+                  trusted=["action.serialize(value, dump_kwargs=) returns the form that re-parses to value (adapt_typehints arms, their own units)", "the recursive call by contract"]))
+
+
+# ------------------------------------------------------------------------------------- _dump_delete_default_entries (skip_default)
+# what remains after deleting the default-valued entries must, read back over the defaults, give the configuration that was dumped
+# (groups and init_args are completed key by key from the defaults; for a class other than the default's, from that class's defaults,
+# and then the class_path itself has to remain).
+def deep_copy(v):
+    return {k: deep_copy(x) for k, x in v.items()} if isinstance(v, dict) else v
+
+
+def deep_eq(a, b):
+    if isinstance(a, dict) and isinstance(b, dict):
+        if set(a) != set(b):
+            return False
+        parts = [deep_eq(a[k], b[k]) for k in a]
+        if any(p is False for p in parts):
+            return False
+        zs = [p for p in parts if p is not True]
+        return z3.And(*zs) if zs else True
+    if isinstance(a, dict) or isinstance(b, dict):
+        return False
+    if is_z3(a) or is_z3(b):
+        if a is None or b is None:
+            return False
+        return lift(a) == lift(b)
+    return a == b
+
+
+def ident(a, b):
+    if isinstance(a, dict) and isinstance(b, dict):
+        return list(a) == list(b) and all(ident(a[k], b[k]) for k in a)
+    if is_z3(a) and is_z3(b):
+        return a.eq(b)
+    return not is_z3(a) and not is_z3(b) and not isinstance(a, dict) and not isinstance(b, dict) and a == b
+
+
+def overlay(defaults, rem, class_defaults):
+    """re-reading `rem` over `defaults`: key by key for mappings; a subclass spec of another class starts from that class's defaults"""
+    if not (isinstance(defaults, dict) and isinstance(rem, dict)):
+        return rem
+    if "class_path" in rem and rem.get("class_path") != defaults.get("class_path"):
+        defaults = {"class_path": rem["class_path"], "init_args": class_defaults[rem["class_path"]]}
+    out = {}
+    for k in list(defaults) + [k for k in rem if k not in defaults]:
+        if k in rem and k in defaults:
+            out[k] = overlay(defaults[k], rem[k], class_defaults)
+        elif k in rem:
+            out[k] = rem[k]
+        else:
+            out[k] = deep_copy(defaults[k])
+    return out
+
+
+def dde_setup(ctx):
+    shape = ["flat", "nested-group", "key-without-default", "spec-same-class", "spec-other-class"][ctx.choose(5, "shape")]
+    v = {n: z3.Int("value." + n) for n in ("a", "b", "c", "e")}
+    dv = {n: z3.Int("default." + n) for n in ("a", "b", "c")}
+    qv = {n: z3.Int("defaultQ." + n) for n in ("a", "b")}
+    class_defaults = {"Q": {"a": qv["a"], "b": qv["b"]}, "P": {"a": dv["a"], "b": dv["b"]}}
+    subcfg, defaults = {
+        "flat": ({"a": v["a"], "b": v["b"]}, {"a": dv["a"], "b": dv["b"]}),
+        "nested-group": ({"g": {"a": v["a"], "b": v["b"]}, "c": v["c"]}, {"g": {"a": dv["a"], "b": dv["b"]}, "c": dv["c"]}),
+        "key-without-default": ({"a": v["a"], "e": v["e"]}, {"a": dv["a"]}),
+        "spec-same-class": ({"m": {"class_path": "P", "init_args": {"a": v["a"], "b": v["b"]}}}, {"m": {"class_path": "P", "init_args": {"a": dv["a"], "b": dv["b"]}}}),
+        "spec-other-class": ({"m": {"class_path": "Q", "init_args": {"a": v["a"], "b": v["b"]}}}, {"m": {"class_path": "P", "init_args": {"a": dv["a"], "b": dv["b"]}}}),
+        "spec-without-init_args": ({"m": {"class_path": "P"}, "c": v["c"]}, {"m": {"class_path": "P", "init_args": {"a": dv["a"], "b": dv["b"]}}, "c": dv["c"]}),
+        "empty": ({}, {"a": dv["a"]}),
+    }[shape]
+    original = deep_copy(subcfg)
+    defaults0 = deep_copy(defaults)
+
+    def get_class_parser(c, a, k):
+        c.event("class-parser", a[0])
+        return Rec("ArgumentParser", methods={"get_defaults": lambda c2, s2, a2, k2: Rec("Namespace", methods={"as_dict": lambda c3, s3, a3, k3: deep_copy(class_defaults[a[0]])})})
+
+    def recurse(c, s_, a, k):
+        # the contract of this very function, for the nested mapping: afterwards overlay(defaults, rest) == before
+        sub, dfl = a
+        for key in list(sub.keys()):
+            if key in dfl:
+                same = deep_eq(sub[key], dfl[key])
+                if same is True or (same is not False and c.branch(same, f"nested[{key}]==default")):
+                    del sub[key]
+
+    self = Rec("ArgumentParser", methods={"_dump_delete_default_entries": recurse})
+    calls = {"is_subclass_spec": lambda c, a, k: isinstance(a[0], dict) and "class_path" in a[0], "ActionTypeHint.get_class_parser": get_class_parser}
+    return Setup(env={"self": self, "subcfg": subcfg, "subdefaults": defaults}, calls=calls, cms={"parser_context": noop_cm("parser_context")},
+                 data=dict(shape=shape, subcfg=subcfg, defaults=defaults, original=original, defaults0=defaults0, class_defaults=class_defaults))
+
+
+def dde_post(ctx, st, result):
+    d = st.data
+    tag = f"[{d['shape']}]"
+    back = overlay(d["defaults0"], d["subcfg"], d["class_defaults"])
+    same = deep_eq(back, d["original"])
+    ctx.oblige("post", "what-remains,read-back-over-the-defaults,is-the-configuration-that-was-dumped" + tag, same if not isinstance(same, bool) else z3.BoolVal(same), note=f"remaining {d['subcfg']}")
+    ctx.oblige("frame", "the-defaults-are-not-modified" + tag, ident(d["defaults"], d["defaults0"]))
+
+
+def dde_raises(ctx, st, exc):
+    ctx.oblige("raises", f"never-raises[{st.data['shape']}](got {exc.cls}@{exc.origin})", False)
+
+
+from contracts.parse_models import noop_cm  # noqa: E402
+UNITS.append(Unit("C01", "jsonargparse._core:ArgumentParser._dump_delete_default_entries", dde_setup, dde_post, dde_raises, max_paths=20000,
+                  trusted=["nested mappings are completed key by key from the defaults when re-read (groups, init_args); Dict-typed *values* are not - that difference is the known finding c01-skip_default-recurses-into-dict-values, outside this unit",
+                           "the recursive call by contract", "get_class_parser(class_path).get_defaults() are the defaults of that class"]))
